@@ -37,3 +37,57 @@ claim('C04', 'model_checking',
       'trusts TLC, the transcription of DWARF 7.5 in DwarfForms.tla/DieTree.tla, and the value normaliser; small-scope: trees of <= 5 (quick) '
       '/ 6 (thorough) entries over <= 2 units; tag/attribute names asserted only where the vendored registry defines them',
       'DESIGN.md 5/C04')
+claim('C12', 'model_checking',
+      'TLA+ DW_OP table, Enc and reader machine (spec/Expr.tla) model-checked by TLC (RoundTrip, Tiling, NamesBijective, termination variant); '
+      'emitted expressions replayed into DWARFExprParser.parse_expr; corpus expressions validated as traces (spec/trace/ExprTrace.tla)',
+      'TLC enumerates every opcode x operand class x address size x format x byte order, sequences and nested entry-value blocks, '
+      'checks the reader machine against the writer on the specification, and each case is a conformance case for parse_expr; '
+      'expressions recorded from corpus DIEs/location lists are re-decoded by the spec decoder inside TLC (total verdict).',
+      'trusts TLC, the transcription of DWARF5 Table 7.9 + GNU/WASM extensions, denote(); vendor opcodes outside the table are not generated',
+      'DESIGN.md 5/C12')
+claim('C14', 'model_checking',
+      'TLA+ note extent writer + walker machine + descriptor layouts (spec/Notes.tla, NoteWalk.tla) model-checked by TLC (EveryNoteOnce, '
+      'ExtentConsumed, SectionViewEqualsSegmentView, progress/termination; 3 Apalache obligations on the progress measure); emitted ELF images '
+      'replayed into NoteSection/NoteSegment/StabSection; corpus note extents validated as walker traces (spec/trace/NotesTrace.tla)',
+      'TLC enumerates note extents over every size residue, final header-only notes, owners/types, 4 class/byte-order combinations, ET_CORE vs '
+      'other, GNU property lists, prpsinfo/NT_FILE layouts and stabs, and checks the walker against the declarative view; every image is a '
+      'conformance case through 8 consumption patterns; all corpus note sections/segments are validated against the walker machine.',
+      'trusts TLC, Apalache (informational obligations), the gABI/GNU property transcription; n_type names asserted only where the owner defines the code',
+      'DESIGN.md 5/C14')
+claim('C20', 'model_checking',
+      'TLA+ build-attribute section writer + three-level walker machine (spec/Attrs.tla) and EHABI prel31/classification/byte-code table + reader '
+      'machine (spec/Ehabi.tla) model-checked by TLC; emitted ARM/RISC-V ELF images replayed through five consumption patterns',
+      'TLC enumerates sections of 1..3 subsections x sub-subsections x attribute lists over the ARM/RISC-V tag tables and exidx/extab contents over '
+      'every displacement class, entry kind and the full byte-code space, checks EverySubsectionOnce/ExtentConsumed/ReaderAgrees/PrelAgrees/'
+      'CodeRoundTrip on the specification; every image is a conformance case for iter_subsections/.../get_ehabi_infos.',
+      'trusts TLC and the transcription of the ARM ABI addenda, RISC-V psABI and EHABI 10.3; mnemonics compared at class level, not as text',
+      'DESIGN.md 5/C20')
+claim('C13', 'model_checking',
+      'TLA+ aranges/pubnames writers with byte-level Enc, the bisect lookup model vs the declarative CuAt, and the unit-cache machine '
+      '(spec/Lookup.tla) model-checked by TLC (BisectEqDecl, round trips, UnitsRight over every cache state); emitted tables, query grids and '
+      'lookup histories replayed into get_aranges/get_pubnames/get_pubtypes/get_CU_containing/get_CU_at/get_DIE_from_lut_entry',
+      'TLC enumerates every table of <= 4 non-overlapping tuples in every order and split into sets x every grid address (inside, first/last byte, '
+      'one past, gaps, below, above), name tables over multi-unit sections, and every order of first touches of the unit cache followed by a probe '
+      'at every offset; the operational bisect model is proved equal to the declarative lookup on the specification; each case is replayed.',
+      'trusts TLC and the transcription of DWARF 6.1/7.19/7.21; 32-bit format tables, aligned sets only (padding origin is not fixed by the standard '
+      'for unaligned sets), no overlapping or zero-length ranges', 'DESIGN.md 5/C13')
+claim('C15', 'model_checking',
+      'TLA+ verdef/verneed/versym writers with displacement-linked placement patterns and the chain walker machine (spec/Versions.tla) model-checked by '
+      'TLC (ChainFollowsLinks, IndexResolution, HasIndexes, progress); emitted ELF images replayed into the GNUVer* sections through five '
+      'consumption patterns; corpus version sections validated as traces on their raw bytes (spec/trace/VersionsTrace.tla)',
+      'TLC enumerates definition/requirement chains x auxiliary chains x placement patterns (packed, padded, reversed, striped) x index assignments '
+      'incl. hidden bit x 4 class/byte-order combinations and checks the walker against the declarative view; all 94 corpus version sections are '
+      're-walked by the chain machine inside TLC.',
+      'trusts TLC and the transcription of the LSB symbol-versioning record layouts; well-formed sections only (counts agree with chains)',
+      'DESIGN.md 5/C15')
+claim('C10', 'model_checking',
+      'TLA+ API-level machine of the lazily caching reader (spec/Reader.tla: unit cache, entry cache, parent/terminator links, live generator frames, '
+      'stream repositioning as an action parameter) model-checked by TLC over all call interleavings up to the depth bound; the labelled state graph is '
+      'emitted edge by edge and every edge replayed into the real code; plus TLC-generated histories and exhaustive generator patterns over the wider '
+      'API (spec/Api.tla) replayed on corpus files against a freshly opened object per query',
+      'TLC verifies ResultEqualsFresh (every answer = declarative truth), ParentLinksTrue, TermLinksTrue, GeneratorYieldsKth and CachesConsistent over every '
+      'reachable cache state x every call x stream repositioning on three constant files (with/without/mixed sibling attributes, 1-3 units) and each '
+      'of the ~10^5 edges is executed on a fresh object from a shortest path; the cache projection of the implementation is monitored (DRIFT, not a '
+      'violation). Long histories and every (generator kind x repositioning / interleaving / query-in-between) pattern are replayed on 8-18 corpus files.',
+      'pruning hypothesis: hidden state = projected caches + generator frames + stream positions; bounded depth (4-5 calls) for exhaustive exploration, '
+      'longer histories only by seeded simulation; truth for corpus files is the same query on a fresh object', 'DESIGN.md 5/C10')
